@@ -42,7 +42,7 @@ def strategy_(draw, tier):
   simple_fns = [{'kind': 'sym', 'name': 'things:f2'}, {'kind': 'sym', 'name': 'things:ident'},
                 {'kind': 'sym', 'name': 'things:g3'}]
   for _ in range(n_pre):
-    kind = draw(st.sampled_from(['B', 'B', 'list', 'tuple', 'dict', 'nt'])) if nodes else 'B'
+    kind = draw(st.sampled_from(['B', 'B', 'list', 'tuple', 'dict', 'nt', 'odict', 'lsub'])) if nodes else 'B'
     nav = len(nodes)
     ref = lambda: recipes.child_ref(draw, nav, leaf_st, p_alias=0.65)
     if kind == 'B':
@@ -57,6 +57,11 @@ def strategy_(draw, tier):
     elif kind == 'dict':
       keys = draw(st.lists(st.sampled_from(['a', 'b', 1, 2]), unique=True, max_size=3))
       node = {'k': 'dict', 'keys': keys, 'items': [ref() for _ in keys]}
+    elif kind == 'odict':
+      keys = draw(st.lists(st.sampled_from(['a', 'b', 1]), unique=True, min_size=1, max_size=3))
+      node = {'k': 'odict', 'keys': keys, 'vals': [draw(leaf_st) for _ in keys]}
+    elif kind == 'lsub':
+      node = {'k': 'lsub', 'vals': [draw(leaf_st) for _ in range(draw(st.integers(0, 3)))]}
     else:
       node = {'k': 'nt', 'type': draw(st.sampled_from(['Pair', 'PairSub', 'GenericNT'])), 'items': [ref(), ref()]}
     nodes.append(node)
@@ -192,6 +197,11 @@ def check_useq(case, out):
   return out
 
 
+def _kwargs_order(result):
+  rec = getattr(result, '__vrec__', result)
+  return list(rec.varkw) if isinstance(rec, vuni.Rec) else None
+
+
 def check_mseq(case, out):
   from harness.vuni import things
   out.cls('method_sequence')
@@ -283,6 +293,10 @@ def check(case):
       elif len(vuni.LOG) != ref_calls:
         out.add('invocation-count', 'mismatch', '', feature,
                 f'{len(vuni.LOG)} calls vs {ref_calls} in the reference')
+      elif _kwargs_order(expected) != _kwargs_order(actual):
+        # **kwargs reach the callable in the configured (insertion) order, as in a direct call
+        out.add('kwargs-order-differs-from-direct-call', 'mismatch', '', feature,
+                f'expected {_kwargs_order(expected)} actual {_kwargs_order(actual)} cfg={root!r}')
       # default_factory: two builds give distinct default objects
       if kind == 'DC' and ce == ca:
         again = fdl.build(root)
